@@ -1460,3 +1460,157 @@ Example ex14_timers :
   snd (step enc dec rf_cfg 2 300000 (final enc dec rf_cfg 2 300000 tr) (ATick 5100)) = OExpired [0%Z] /\
   last_arm enc dec rf_cfg 2 300000 init_world tr 0 None = Some 5000%N.
 Proof. vm_compute. repeat split. Qed.
+
+(* ================================================================ Part 4: Initialize finds the sessions of the DB *)
+Open Scope N_scope.
+
+Lemma digits_fuel_length dig fuel : forall n k,
+  n < 16 ^ N.of_nat k -> (length (digits_fuel fuel 16 dig n []) <= k)%nat.
+Proof.
+  induction fuel as [|f IH]; intros n k H; simpl; [lia|].
+  destruct (n =? 0) eqn:E; [simpl; lia|]. apply N.eqb_neq in E.
+  destruct k as [|k]; [simpl in H; lia|].
+  rewrite digits_fuel_acc, app_length. simpl.
+  assert (Hd : n / 16 < 16 ^ N.of_nat k).
+  { rewrite Nat2N.inj_succ, N.pow_succ_r' in H. apply N.div_lt_upper_bound; lia. }
+  specialize (IH _ _ Hd). lia.
+Qed.
+
+Lemma hex_of_N_length n : n < 16 ^ 16 -> (length (hex_of_N n) <= 16)%nat.
+Proof.
+  intro H. unfold hex_of_N, digits_of. destruct (n =? 0); [simpl; lia|].
+  apply (digits_fuel_length hex_digit _ n 16%nat). exact H.
+Qed.
+
+Lemma pad_left_length w c l : (length l <= w)%nat -> length (pad_left w c l) = w.
+Proof. intro H. unfold pad_left. rewrite app_length, repeat_length. lia. Qed.
+
+Definition lc_hex (c : N) : Prop := unhex c = Some (unhex_lc c).
+
+Lemma lc_hex_digit d : d < 16 -> lc_hex (hex_digit d).
+Proof.
+  intro H. unfold lc_hex.
+  assert (C : d = 0 \/ d = 1 \/ d = 2 \/ d = 3 \/ d = 4 \/ d = 5 \/ d = 6 \/ d = 7 \/ d = 8 \/ d = 9 \/
+              d = 10 \/ d = 11 \/ d = 12 \/ d = 13 \/ d = 14 \/ d = 15) by lia.
+  repeat (destruct C as [C|C]; [subst; reflexivity|]). subst. reflexivity.
+Qed.
+
+Lemma digits_fuel_lc fuel : forall n acc, Forall lc_hex acc -> Forall lc_hex (digits_fuel fuel 16 hex_digit n acc).
+Proof.
+  induction fuel as [|f IH]; simpl; intros n acc Ha; [exact Ha|].
+  destruct (n =? 0); [exact Ha|]. apply IH. constructor; [|exact Ha]. apply lc_hex_digit. apply N.mod_lt. lia.
+Qed.
+
+Lemma hex16_nonneg_lc n : Forall lc_hex (pad_left 16 48 (hex_of_N n)).
+Proof.
+  apply pad_left_forall; [reflexivity|]. unfold hex_of_N, digits_of. destruct (n =? 0).
+  - constructor; [reflexivity|constructor].
+  - apply digits_fuel_lc. constructor.
+Qed.
+
+Lemma scan_hex_all : forall l w acc nd,
+  (length l <= w)%nat -> Forall lc_hex l -> scan_hex w l acc nd = (parse_hex l acc, (nd + length l)%nat).
+Proof.
+  induction l as [|c l IH]; intros w acc nd Hl Hf.
+  - destruct w; simpl; rewrite Nat.add_0_r; reflexivity.
+  - destruct w as [|w]; [simpl in Hl; lia|]. inversion Hf; subst. simpl. rewrite H1.
+    rewrite IH; [|simpl in Hl; lia|assumption]. f_equal. lia.
+Qed.
+
+Lemma skipn_app_exact (A : Type) (a b : list A) : skipn (length a) (a ++ b) = b.
+Proof. induction a; [reflexivity|assumption]. Qed.
+
+Theorem key_to_id_session_key z : (0 <= z < 9223372036854775808)%Z -> key_to_id (session_key z) = Some z.
+Proof.
+  intro Hz. unfold key_to_id, session_key. rewrite has_prefix_app. unfold drop_prefix. rewrite skipn_app_exact.
+  unfold hex16. assert (Hneg : (z <? 0)%Z = false) by (apply Z.ltb_ge; lia). rewrite Hneg.
+  assert (Hn : Z.to_N z < 16 ^ 16) by (change (16 ^ 16) with 18446744073709551616; lia).
+  rewrite scan_hex_all; [|rewrite pad_left_length by (apply hex_of_N_length; exact Hn); lia|apply hex16_nonneg_lc].
+  rewrite pad_left_length by (apply hex_of_N_length; exact Hn). cbn [Nat.add].
+  rewrite parse_hex_pad, parse_hex_of_N.
+  assert (Hlt : (Z.to_N z <? 9223372036854775808) = true) by (apply N.ltb_lt; lia). rewrite Hlt.
+  rewrite Z2N.id by lia. reflexivity.
+Qed.
+
+Definition session_dir : bytes := Eval compute in removelast session_prefix.
+
+Lemma session_key_in_listing st z :
+  sorted (st_kv st) -> has (st_kv st) (session_key z) -> In (session_key z) (db_list st session_lo session_hi).
+Proof.
+  intros Hs Hh. unfold db_list.
+  change session_lo with (session_dir ++ [47]). change session_hi with (session_dir ++ [47; 47]).
+  rewrite !kv_bound_app. apply in_db_list; [exact Hs|]. split; [exact Hh|].
+  apply slash_children_range. exists (hex16 z). split; [reflexivity|apply hex16_no_slash].
+Qed.
+
+Section LeaderInit.
+  Variable meta_dec : bytes -> option N.
+
+  Lemma read_sessions_keeps st z t : forall keys acc l0,
+    kv_get (st_kv st) (session_key z) <> None ->
+    (forall e, kv_get (st_kv st) (session_key z) = Some (VRecord e) -> meta_dec (e_value e) = Some t) ->
+    key_to_id (session_key z) = Some z ->
+    (forall y, In y keys -> key_to_id y = Some z -> y = session_key z) ->
+    read_sessions meta_dec st keys acc = Ok l0 ->
+    In (z, t) acc \/ In (session_key z) keys -> In (z, t) l0.
+  Proof.
+    induction keys as [|y tl IH]; intros acc l0 Hh Hm Hid Hu H Hin.
+    - inversion H; subst. destruct Hin as [Hin|[]]. exact Hin.
+    - cbn [read_sessions] in H.
+      destruct (db_get st y CEqual true) as [g|e0] eqn:G; [|discriminate].
+      assert (Hu' : forall y0, In y0 tl -> key_to_id y0 = Some z -> y0 = session_key z)
+        by (intros y0 H0; apply Hu; right; exact H0).
+      assert (Skip : In (z, t) acc \/ In (session_key z) tl -> In (z, t) l0 \/ True) by (intros _; right; exact I).
+      destruct (g_status g) eqn:Gs; try (apply (IH acc l0 Hh Hm Hid Hu' H); destruct Hin as [Hin|[Hin|Hin]]; [left; exact Hin| |right; exact Hin];
+        (* y = session_key z would have status OK *)
+        exfalso; subst y; unfold db_get, kv_lookup in G; destruct (kv_get (st_kv st) (session_key z)) as [v|] eqn:K; [|apply Hh; reflexivity];
+        destruct (deserialize v); inversion G; subst g; discriminate).
+      destruct (g_value g) as [v|] eqn:Gv.
+      2:{ apply (IH acc l0 Hh Hm Hid Hu' H). destruct Hin as [Hin|[Hin|Hin]]; [left; exact Hin| |right; exact Hin].
+          exfalso. subst y. unfold db_get, kv_lookup in G. destruct (kv_get (st_kv st) (session_key z)) as [v0|] eqn:K; [|apply Hh; reflexivity].
+          destruct (deserialize v0); inversion G; subst g; discriminate. }
+      destruct (key_to_id y) as [id|] eqn:Ky.
+      2:{ apply (IH acc l0 Hh Hm Hid Hu' H). destruct Hin as [Hin|[Hin|Hin]]; [left; exact Hin| |right; exact Hin].
+          subst y. congruence. }
+      assert (Same : y = session_key z -> meta_dec v = Some t).
+      { intro E. subst y. unfold db_get, kv_lookup in G. destruct (kv_get (st_kv st) (session_key z)) as [v0|] eqn:K; [|inversion G; subst g; discriminate].
+        destruct v0 as [e|nb]; simpl in G; [|discriminate]. inversion G; subst g. simpl in Gv. inversion Gv; subst v. apply Hm. reflexivity. }
+      destruct (meta_dec v) as [t'|] eqn:Md.
+      + apply (IH _ l0 Hh Hm Hid Hu' H).
+        destruct (Z.eq_dec id z) as [->|Hne].
+        * left. rewrite (Hu y (or_introl eq_refl) Ky) in Same. specialize (Same eq_refl). inversion Same; subst. left. reflexivity.
+        * destruct Hin as [Hin|[Hin|Hin]].
+          -- left. right. apply filter_In. split; [exact Hin|]. simpl. apply negb_true_iff. apply Z.eqb_neq. congruence.
+          -- exfalso. subst y. congruence.
+          -- right. exact Hin.
+      + apply (IH acc l0 Hh Hm Hid Hu' H). destruct Hin as [Hin|[Hin|Hin]]; [left; exact Hin| |right; exact Hin].
+        exfalso. specialize (Same Hin). discriminate.
+  Qed.
+
+  (* PARTIAL (two hypotheses that every DB written through createSession satisfies, but that are not part of the
+     proved invariant: Initialize does not fail on some other key, and no OTHER key of the listing parses to the same
+     id): a session whose key holds decodable metadata is found by the new leader and armed with a full timeout *)
+  Theorem leader_init_finds_session st now z e t l :
+    sorted (st_kv st) -> (0 <= z < 9223372036854775808)%Z ->
+    kv_get (st_kv st) (session_key z) = Some (VRecord e) -> meta_dec (e_value e) = Some t ->
+    (forall y, In y (db_list st session_lo session_hi) -> key_to_id y = Some z -> y = session_key z) ->
+    leader_init meta_dec st now = Ok l ->
+    In (z, mkSess t now) l.
+  Proof.
+    intros Hs Hz Hk Hm Hu H. unfold leader_init in H.
+    destruct (read_sessions meta_dec st (db_list st session_lo session_hi) []) as [l0|e0] eqn:R; [|discriminate].
+    inversion H; subst l; clear H.
+    assert (Hin : In (z, t) l0).
+    { eapply (read_sessions_keeps st z t); [| | |exact Hu|exact R|].
+      - rewrite Hk. discriminate.
+      - intros e1 E1. rewrite Hk in E1. inversion E1; subst. exact Hm.
+      - apply key_to_id_session_key. exact Hz.
+      - right. apply session_key_in_listing; [exact Hs|]. unfold has. rewrite Hk. discriminate. }
+    apply in_map_iff. exists (z, t). split; [reflexivity|exact Hin].
+  Qed.
+End LeaderInit.
+
+(* NOTE on sequence puts (outside [c14_request]).  applyPut passes a nil existing entry to the callbacks for a put with
+   sequence deltas, so when the generated key already holds an ephemeral record (reachable: a literal "p-1" makes
+   FindLower return the same last key twice) the old owner's shadow key is never deleted: a stale shadow, and at that
+   session's end the record is deleted although not owned.  Reported to C16, which owns the sequence path. *)
